@@ -125,6 +125,22 @@ def run_history(case, r):
     per_iter_solution = bool(case['seed'] % 2)
     if per_iter_solution:
         hooks = [LogSolutionAfterIteration, LogWork, LogStepSize, LogSDCIterations, H]
+    if case['seed'] % 3 == 0:
+        # somebody else uses the problem between the steps (what the error hooks do through u_exact, or a user between two
+        # runs): evaluations made before a step's pre_step callbacks belong to no step
+        from pySDC.core.hooks import Hooks
+
+        irng = np.random.default_rng(case['seed'] + 5)
+
+        class Intruder(Hooks):
+            def pre_step(self, step, level_number):
+                super().pre_step(step, level_number)
+                L_ = step.levels[0]
+                for _ in range(int(irng.integers(1, 5))):
+                    L_.prob.eval_f(L_.u[0], L_.time)
+                box['intrusions'] = box.get('intrusions', 0) + 1
+
+        hooks = [Intruder] + hooks
     ctrl = controller_nonMPI(procs, dict(logger_level=50, dump_setup=False, hook_class=hooks, mssdc_jac=False), desc)
     hook = find_hook(ctrl, H)
     install_call_counters(ctrl, calls)
@@ -229,12 +245,51 @@ def run_history(case, r):
                 r.check([v for _, v in got] == [a['niter'] for a in sorted(acc, key=lambda a: a['start'])], 'recomputed-false-values', f'{tag}: niter of accepted steps {[a["niter"] for a in acc]} vs filtered {[v for _, v in got]}')
     # ---- (4)/(6) filter and sort helpers on the real dictionary
     check_helpers(r, tag, stats, rng)
+    if len(rej) > 0:
+        check_gather(r, tag, stats, rng)
     r.nontrivial = len(acc) >= 1
     r.count('attempts', len(att))
     r.count('rejected_attempts', len(rej))
     r.observe('restarted', len(rej) > 0)
     r.observe('procs_levels', f'{procs}x{nlev}')
     r.sample = dict(case={k: v for k, v in case.items() if not k.startswith('_')}, attempts=len(att), rejected=len(rej), types=sorted(get_list_of_types(stats)))
+
+
+def check_gather(r, tag, stats, rng):
+    """filter_stats(..., comm=...) on per-rank dictionaries (records split by the process that wrote them, as controller_MPI
+    produces them) must return on every rank what the serial call returns on the merged dictionary; the collective is
+    provided by the simulated mpi4py of C08 (one thread per rank)"""
+    import os
+    import sys
+
+    sim = os.path.join(os.path.dirname(os.path.dirname(os.path.abspath(__file__))), 'simmpi')
+    if sim not in sys.path:
+        sys.path.insert(0, sim)
+    from mpi4py import MPI
+    from pySDC.helpers.stats_helper import filter_stats, get_list_of_types
+
+    procs = sorted({k.process for k in stats if k.process is not None and k.process >= 0})
+    if len(procs) < 2:
+        return
+    local = {p: {k: v for k, v in stats.items() if k.process == p or (k.process not in procs and p == procs[0])} for p in procs}
+    types = [t for t in get_list_of_types(stats) if t != '_recomputed']
+    sels = [dict(type=types[int(rng.integers(0, len(types)))], recomputed=False) for _ in range(3)] + [dict(type=types[int(rng.integers(0, len(types)))]), dict(recomputed=False, level=0)]
+    for sel in sels:
+        try:
+            want = set(filter_stats(stats, **sel).keys())
+        except TypeError:
+            continue
+
+        def fn(rank, sel=sel):
+            return set(filter_stats(local[procs[rank]], comm=MPI.COMM_WORLD, **sel).keys())
+
+        res, err, w = MPI.launch(len(procs), fn, seed=int(rng.integers(0, 2**31)), policy='random')
+        if any(e is not None for e in err):
+            r.check(False, 'gathered-filter-equals-serial-filter', f'{tag}: filter_stats({sel}, comm=...) raised on a rank: {[repr(e)[:120] for e in err if e is not None][:2]}')
+            continue
+        for rank, got in enumerate(res):
+            r.check(got == want, 'gathered-filter-equals-serial-filter', f'{tag}: filter_stats({sel}, comm=...) on rank {rank} of {len(procs)} keeps {len(got)} records, the serial call on the merged dictionary keeps {len(want)}; only in one: {sorted(map(str, got ^ want))[:2]}')
+        r.count('gathered_filters')
 
 
 def check_helpers(r, tag, stats, rng):
@@ -375,6 +430,8 @@ def run_adaptive(case, r):
                 r.check(False, 'recomputed-false-is-accepted-steps', f'{tag}: get_sorted(type={typ!r}, recomputed=False) returns times {got_times[:8]}..., accepted steps end at {exp_times[:8]}...', mech=mech)
         r.count('all_hooks_runs')
     check_helpers(r, tag, stats, np.random.default_rng(case['seed']))
+    if len(rej) > 0:
+        check_gather(r, tag, stats, np.random.default_rng(case['seed'] + 1))
     r.nontrivial = len(acc) >= 1
     r.count('attempts', len(att))
     r.count('rejected_attempts', len(rej))
@@ -425,7 +482,7 @@ def finalize(agg):
             out.append(f'monitor {k} never evaluated')
     if c.get('rejected_attempts', 0) == 0:
         out.append('no restarted attempt was observed')
-    for k, why in (('all_hooks_runs', 'no run with every shipped hook was judged'), ('oracle:recomputed-filter-independent-of-type-filter', 'multi-key recomputed filter never compared'), ('oracle:record-keyed-by-a-step-time', 'key-time coherence never evaluated'), ('oracle:one-run-level-record', 'run-level records never counted')):
+    for k, why in (('all_hooks_runs', 'no run with every shipped hook was judged'), ('oracle:recomputed-filter-independent-of-type-filter', 'multi-key recomputed filter never compared'), ('oracle:record-keyed-by-a-step-time', 'key-time coherence never evaluated'), ('oracle:one-run-level-record', 'run-level records never counted'), ('gathered_filters', 'the comm= path of filter_stats was never exercised')):
         if c.get(k, 0) == 0:
             out.append(why)
     return out
